@@ -304,7 +304,21 @@ func corpus() []Case {
 			{Off: 3, Nchan: 1, Prod: 1, Sample: s12}, {Off: 4, Nchan: 1, Prod: 1, Sample: s12}},
 		Ops: []Tick{cat(seqp(0, 1, 3, 5), seqp(1, 2, 3, 4), seqp(2, 1, 3, 6)),
 			cat(seqp(3, 1, 3, 3, 4, 5, 6))}}
-	for i := 0; i < 5; i++ {
+	// the same four-group script with every group in turn as the one that lags
+	for lag := 0; lag < 4; lag++ {
+		v := Case{Fpp: 2, Note: fmt.Sprintf("leftover-then-gap, 4 groups, group %d lags", lag), Groups: four.Groups, Ops: make([]Tick, 3)}
+		for g, gc := range four.Groups {
+			if g == lag {
+				v.Ops[1].P = append(v.Ops[1].P, seqp(g, gc.Nchan, 2, 3, 4, 5, 6)...)
+			} else {
+				v.Ops[0].P = append(v.Ops[0].P, seqp(g, gc.Nchan, 2, 3, 4)...)
+				v.Ops[1].P = append(v.Ops[1].P, seqp(g, gc.Nchan, 2, 6)...)
+			}
+			v.Ops[2].P = append(v.Ops[2].P, seqp(g, gc.Nchan, 2, 7)...)
+		}
+		out = append(out, v, v, v)
+	}
+	for i := 0; i < 3; i++ {
 		out = append(out, two, four, drop)
 	}
 	// (4) one group: no loss; loss of the first / last packet of a batch; empty ticks
@@ -338,7 +352,7 @@ func corpus() []Case {
 
 func gen(seed uint64, tier string) []interface{} {
 	r := lib.NewRng(seed)
-	n := 230
+	n := 330
 	if tier == "thorough" {
 		n = 3000
 	}
